@@ -10,6 +10,12 @@ NOTE_COMMON = ("Trusted: go/types and go/ssa (x/tools v0.50.0) construction for 
                "code; value-level clauses named there as 'not decided' are not covered.")
 
 claimed = {
+ "C05": dict(category="other",
+   text="Decides structural necessary conditions of exactly-once in-order delivery on every path of downloader and driver: a nil fetch result (treated by the caller as 'no events', cursor moves on) only under cancellation (one known finding, D3, is listed); block creation only after the header/log hash cross-check, fields from the same log; removed/foreign logs dropped; the driver never abandons a block except on success, cancellation or ErrInconsistentState (boolean-flag retry loops analysed path-sensitively); download restarts at lastProcessed+1 and after each reorg; the lower bound of every range fetch is the loop-carried cursor. Range arithmetic over chunk size, finality and tip movement is value-level and not decided, hence level 'other'.",
+   ref="4 C05", technique="static analysis: SSA must-pass-through with boolean jump threading, value provenance, cursor (loop-carried Phi) discipline"),
+ "C06": dict(category="other",
+   text="Decides structural necessary conditions of reorg detection and rewind on every path: process only after tracking succeeded (or finalized); single notifier, only on tracked-vs-current hash mismatch for the same number, first mismatching block in ascending order, unchanged blocks dropped only when finalized; driver cancels before rewinding, passes the notified block unchanged, retries Reorg until nil, acknowledges only then, and restarts from the re-read last processed block. Convergence over all fork shapes / interleavings / restart points is a protocol-level property that static analysis does not decide.",
+   ref="4 C06", technique="static analysis: SSA must-pass-through, who-may-send enumeration, value provenance"),
  "C07": dict(category="other",
    text="Decides, on every path of the current source, the structural necessary conditions of all-or-nothing block processing: transaction pairing (commit / rollback / deferred rollback with a flag cleared only after a nil Commit) in every ProcessBlock and Reorg of the three stores; every SQL write in the transaction scope and its callee cone goes through the transaction; every in-memory frontier write is dominated by the registration of a rollback callback that invalidates the frontier; the computed set of post-construction field writes of the long-lived store objects is accounted for; ErrInconsistentState leaves ProcessBlock only with a halt; block row first, nothing after Commit. Level 'other': these are necessary conditions that hold for all faults and crash points because they do not depend on them; the value-level claim (state after retry equals the fault-free run) is not decided.",
    ref="4 C07", technique="static analysis: SSA transaction-discipline rules (must-pass-through, handle provenance over the callee cone, who-may-write)"),
